@@ -495,7 +495,7 @@ def _search_pdu(flt: bytes, mid: int = 1) -> bytes:
 def families() -> t.List[t.Tuple[str, str, str, t.Callable[[int], str], t.List[int]]]:
     """(name, kind, growth 'size'|'depth', generator, parameters)."""
     sizes = [16, 32, 64, 128, 256]
-    depths = list(range(4, 15))
+    depths = list(range(4, 31))   # an error path that doubles a string per level only shows beyond 20 levels
     F: t.List[t.Tuple[str, str, str, t.Callable[[int], str], t.List[int]]] = [
         ("filter many siblings", "filter", "size", lambda n: "(&" + "(a=b)" * n + ")", sizes),
         ("filter long value", "filter", "size", lambda n: "(a=" + "x" * n + ")", sizes),
@@ -524,6 +524,9 @@ def families() -> t.List[t.Tuple[str, str, str, t.Callable[[int], str], t.List[i
         ("receive one large PDU octet by octet", "recv-bytewise", "size", lambda n: _tlv(0x30, _tlv(2, b"\x01") + _tlv(0x77, _tlv(0x80, b"1.2") + _tlv(0x81, b"x" * (4 * n)))).hex(), sizes),
         ("receive nested not filters", "recv", "depth", lambda d: _search_pdu((lambda f: [f := _tlv(0xA2, f) for _ in range(d)][-1])(_tlv(0x87, b"cn"))).hex(), depths),
         ("receive nested bad filter", "recv", "depth", lambda d: _search_pdu((lambda f: [f := _tlv(0xA2, f) for _ in range(d)][-1])(_tlv(0x9F, b"cn"))).hex(), depths),
+        ("receive nested not filters, invalid UTF-8 leaf", "recv", "depth", lambda d: _search_pdu((lambda f: [f := _tlv(0xA2, f) for _ in range(d)][-1])(_tlv(0x87, b"\xff\xfe"))).hex(), depths),
+        ("receive nested and filters, wrong-tag leaf", "recv", "depth", lambda d: _search_pdu((lambda f: [f := _tlv(0xA0, f) for _ in range(d)][-1])(_tlv(0xA3, _tlv(0x02, b"\x01") + _tlv(0x04, b"v")))).hex(), depths),
+        ("receive nested or filters, truncated leaf", "recv", "depth", lambda d: _search_pdu((lambda f: [f := _tlv(0xA1, f) for _ in range(d)][-1])(_tlv(0xA3, _tlv(0x04, b"cn")))).hex(), depths),
         ("receive many controls", "recv", "size", lambda n: _tlv(0x30, _tlv(2, b"\x01") + _tlv(0x42, b"") + _tlv(0xA0, _tlv(0x30, _tlv(4, b"1.2")) * n)).hex(), sizes),
     ]
     return F
@@ -545,7 +548,7 @@ def measure_families(rep: C.Report) -> None:
             import resource
 
             resource.setrlimit(resource.RLIMIT_CPU, (40, 45))
-            resource.setrlimit(resource.RLIMIT_AS, (6 << 30, 6 << 30))  # a blow-up of memory must not take the machine down
+            resource.setrlimit(resource.RLIMIT_AS, (3 << 30, 3 << 30))  # a blow-up of memory must not take the machine down
 
         pr = subprocess.Popen([sys.executable, "-c", COUNT, src], stdin=subprocess.PIPE, stdout=subprocess.PIPE, stderr=subprocess.PIPE, preexec_fn=limit)
         try:
@@ -578,7 +581,7 @@ def measure_families(rep: C.Report) -> None:
             cpu_ms[(name, prm)] = v[1]
         if stopped:
             prm = params[len(vals)] if len(vals) < len(params) else params[-1]
-            what = "did not finish within 40 s of CPU time" if stopped == "cpu" else "exhausted 6 GB of memory"
+            what = "did not finish within 40 s of CPU time" if stopped == "cpu" else "exhausted 3 GB of memory"
             rep.violation(f"scanner-cost/{'did-not-finish' if stopped == 'cpu' else 'out-of-memory'}/{name}", f"'{name}' at parameter {prm} ({len(gen(prm))} characters) {what} (smaller inputs: {list(zip(params, vals))})",
                           {"family": name, "parameter": prm, "input": gen(prm)[:400]})
     by: t.Dict[str, t.List[t.Tuple[int, int]]] = {}
